@@ -117,6 +117,28 @@ def run(ctx):
     if cesf:
         c.require_pass(ctx, R2, ces, H + "encryption_enabled", ("okret",), "check_encryption_started Ok requires encryption_enabled true", )
 
+    # the one plaintext method: is_init_secure_api is true only for method == "init_secure_api"
+    iis = ctx.fn(H + "is_init_secure_api")
+    if iis:
+        trues = {b for b, bb in enumerate(iis.bbs) for st in bb["s"] if st["k"] == "a" and st["d"] == [0, []] and st["r"]["k"] == "use" and vf.const_of_operand(iis, st["r"]["o"]) == "1"}
+        direct = [b for b, bb in enumerate(iis.bbs) for st in bb["s"] if st["k"] == "a" and st["d"] == [0, []] and not (st["r"]["k"] == "use" and vf.const_of_operand(iis, st["r"]["o"]) in ("0", "1"))]
+        eqs = []
+        for b, t in iis.calls():
+            if (t.get("f") or "").endswith("PartialEq::eq") and len(t["a"]) == 2:
+                cs = [vf.const_of_operand(iis, a) for a in t["a"]]
+                if '"init_secure_api"' in cs:
+                    other = t["a"][0] if cs[1] == '"init_secure_api"' else t["a"][1]
+                    po = vf.producers(iis, other) | vf.origins(iis, other)
+                    idx = [tt for _bb, tt in iis.calls() if (tt.get("f") or "").endswith("Index::index") and vf.const_of_operand(iis, tt["a"][1]) == '"method"']
+                    if vf.has_call(po, "serde_json::value::Value::as_str") and idx:
+                        eqs.append(b)
+        held = len(eqs) == 1 and bool(trues) and not direct
+        if held:
+            g_ = cfg.call_guard(iis, eqs[0])
+            held = bool(g_.ok) and cfg.must_pass(iis, g_.ok, trues)[0]
+        run.instance(R1, {"fn": "is_init_secure_api", "obligation": "true only when request[\"method\"] == \"init_secure_api\""}, held=held)
+        if not held:
+            run.finding(Finding(R1, iis.id, "is_init_secure_api accepts something other than method == \"init_secure_api\" (a plaintext request could bypass decryption)", site=iis.loc()))
     R3 = "C13.R3"
     run.rule(R3, "replies to encrypted calls are encrypted (was_encrypted path split)", floor=2)
     if fn:
